@@ -232,6 +232,10 @@ def pick_config(rng, quick):
 
 
 def run(ctx) -> None:
+    if ctx.tier == "thorough" and ctx.shard == ctx.nshards - 1:
+        # the repository's own tests as one more workload for the contracts (vmon/contracts.py)
+        from ..contracts_suite import run_repo_tests
+        run_repo_tests(ctx, ['incomplete_cooperative/tests/test_gym.py', 'incomplete_cooperative/tests/test_icg_gym_linear.py'], 'env')
     rng = ctx.rng
     quick = ctx.tier == "quick"
     from itertools import permutations
@@ -288,4 +292,8 @@ def run(ctx) -> None:
 
 
 def replay(ctx, case) -> None:
+    if case.get("kind") == "repo-tests":
+        from ..contracts_suite import run_repo_tests
+        run_repo_tests(ctx, case["files"], case["contracts"])
+        return
     drive(ctx, case)
